@@ -96,3 +96,74 @@ def _(c):
                        "implies(result is not None, $rejoined and $heartbeat_started)")
     c.ensures_internal("a-successful-rejoin-restarts-the-heartbeat-and-re-arms-the-prepare-step",
                        "implies($rejoined, $heartbeat_started and not self._performed_join_prepare)")
+    # C05 "after a member's on_partitions_revoked callback begins it returns no record of a revoked partition ...": the
+    # coordination routine calls this function exactly when the member needs a new generation (it left the group, lost its
+    # generation, the subscription changed). Whenever it comes back without one - the rejoin failed, or the application has
+    # not polled for max_poll_interval_ms and no rejoin is attempted - the old assignment must already have been retired by
+    # the join-prepare step (hand-out gate closed, on_partitions_revoked called): the group may have given the partitions to
+    # somebody else in the meantime
+    c.ensures_internal("without-a-new-generation-the-old-assignment-has-been-revoked",
+                       "implies(not $rejoined and old(subscription.g_active) and subscription.g_active, self._performed_join_prepare)")
+
+
+# ------------------------------------------------------------------ GroupCoordinator._perform_assignment (leader)
+# C06 "the members' assignments together cover every partition of every subscribed topic, and no further rebalance occurs":
+# the leader assigns from its client's metadata and rejoins when that metadata changes; both only work for the topics the
+# client has been told to follow. Fragment: the statement that tells it (the member-metadata loop above it unpacks tuples
+# whose arity depends on the response version: outside the verified subset).
+S.fields.update({"_subscribed_pattern": Opt(Opaque("Pattern"))})
+
+
+@contract(MOD + ":GroupCoordinator._perform_assignment", ["C06"], variant="topics-the-leader-follows")
+def _(c):
+    c.self_("GroupCoordinator")
+    c.no_class_inv = True
+    c.param("response", Ref("JoinGroupResponse"))
+    c.local("all_subscribed_topics", Ref("GroupSubscription"))          # the set of topics, as one opaque value
+    c.fragment("if not self._subscription.subscribed_pattern", requires=[
+        "self._group_subscription is not None and self._group_subscription == all_subscribed_topics"])
+    c.call("self._client.set_topics", note="AIOKafkaClient.set_topics: the topics whose metadata the client keeps fresh")
+    c.hook("before", "self._client.set_topics", [
+        ("assert", "the-leader-follows-every-topic-any-member-subscribes-to", "a0 == all_subscribed_topics"),
+    ])
+    c.replay_fn = lambda model, ob=None: {"script": _LEADER_TOPICS_SCRIPT}
+
+
+# replay: the real _perform_assignment of a leader subscribed to {A} in a group whose other member subscribes to {A, B}
+_LEADER_TOPICS_SCRIPT = '''
+import asyncio, logging, types
+logging.disable(logging.CRITICAL)
+from unittest import mock
+from aiokafka.consumer.group_coordinator import GroupCoordinator
+from aiokafka.consumer.subscription_state import SubscriptionState
+from aiokafka.coordinator.assignors.roundrobin import RoundRobinPartitionAssignor
+from aiokafka.coordinator.protocol import ConsumerProtocolMemberMetadata
+
+async def main():
+    coord = GroupCoordinator.__new__(GroupCoordinator)
+    subs = SubscriptionState()
+    subs.subscribe({"A"})
+    coord._subscription = subs
+    coord.group_id = "g"
+    coord._assignors = [RoundRobinPartitionAssignor]
+    followed = []
+    client = mock.MagicMock()
+    client.set_topics = lambda topics: followed.append(set(topics))
+    async def nothing():
+        return None
+    client._maybe_wait_metadata = nothing
+    coord._client = client
+    coord._cluster = mock.MagicMock()
+    coord._cluster.partitions_for_topic = lambda t: {0, 1}
+    coord._get_metadata_snapshot = lambda: {}
+    enc = lambda topics: ConsumerProtocolMemberMetadata(0, sorted(topics), b"").encode()
+    resp = types.SimpleNamespace(API_VERSION=2, group_protocol="roundrobin",
+                                 members=[("leader", enc({"A"})), ("follower", enc({"A", "B"}))])
+    await coord._perform_assignment(resp)
+    if not followed or followed[-1] != {"A", "B"}:
+        return ["the leader subscribes to {A}, a follower to {A, B}: the leader's client follows %r; topic B never gets metadata, "
+                "its partitions are assigned to nobody and no metadata change triggers a rejoin" % (followed[-1:] or None)]
+    return []
+bad = asyncio.run(main())
+VIOLATED = bool(bad); DETAIL = "; ".join(bad)
+'''
